@@ -37,16 +37,20 @@ static Plan qr_generate(uint64_t seed, const Tier &tier)
 	int k = proofs ? (int)g.range(2, 4) : (int)g.range(2, 5);
 	p.cfg["k"] = k; p.cfg["w"] = proofs ? (g.chance(1, 8) ? 4 : (int64_t)g.range(1, 3)) : (g.chance(1, 6) ? (int64_t)g.range(5, 8) : (int64_t)g.range(1, 4));
 	int64_t nmaxs = proofs ? 6 : 10;
+	// rarely a full table: 31 or 32 seats (TMCG_MAX_PLAYERS; the six keys of the pool repeat) with one or two type bits,
+	// or the maximum number of type bits with two seats
+	if (g.chance(1, 25)) { k = (int)g.range(31, 32); p.cfg["k"] = k; p.cfg["w"] = (int64_t)g.range(1, 2); nmaxs = 3; }
+	else if (!proofs && g.chance(1, 25)) { k = 2; p.cfg["k"] = k; p.cfg["w"] = (int64_t)g.range(9, TMCG_MAX_TYPEBITS); }
 	p.cfg["tap"] = g.chance(1, 2); p.cfg["keys"] = (int64_t)g.below(720);
 	int nops = (int)g.range(3, proofs ? 8 : (tier.thorough ? 20 : 12));
 	const std::string &prop = p.property;
 	p.cfg["kappa"] = (int64_t)g.range(1, 6); p.cfg["chunked"] = g.chance(1, 3);
-	p.ops.push_back(Op("card", (int64_t)g.below(256), g.chance(1, 3) ? (int64_t)g.below(k) : -1));
+	p.ops.push_back(Op("card", (int64_t)g.below(1 << 10), g.chance(1, 3) ? (int64_t)g.below(k) : -1));
 	p.ops.push_back(Op("stack", (int64_t)g.range(1, nmaxs), (int64_t)g.below(1 << 20)));
 	for (int i = 0; i < nops; i++)
 	{
 		unsigned c = (unsigned)g.below(100);
-		if (c < 15) p.ops.push_back(Op("card", (int64_t)g.below(256), g.chance(1, 3) ? (int64_t)g.below(k) : -1));
+		if (c < 15) p.ops.push_back(Op("card", (int64_t)g.below(1 << 10), g.chance(1, 3) ? (int64_t)g.below(k) : -1));
 		else if (c < 45) p.ops.push_back(Op("mask", (int64_t)g.below(k), (int64_t)g.below(64)));
 		else if (c < 60) p.ops.push_back(Op("open", (int64_t)g.below(64)));
 		else if (c < 68) p.ops.push_back(Op("stack", (int64_t)g.range(1, nmaxs), (int64_t)g.below(1 << 20)));
@@ -74,9 +78,9 @@ static Plan qr_generate(uint64_t seed, const Tier &tier)
 static RunResult qr_execute(const Plan &plan)
 {
 	RunResult res;
-	Sim S(plan.seed, 8); S.single_party = 0;
+	Sim S(plan.seed, TMCG_MAX_PLAYERS + 8); S.single_party = 0; // one coin stream per seat (up to TMCG_MAX_PLAYERS) and a few spare
 	CerrCapture cap;
-	size_t k = (size_t)std::max<int64_t>(2, std::min<int64_t>(6, plan.get("k", 2)));
+	size_t k = (size_t)std::max<int64_t>(2, std::min<int64_t>(TMCG_MAX_PLAYERS, plan.get("k", 2)));
 	size_t w = (size_t)std::max<int64_t>(1, std::min<int64_t>(TMCG_MAX_TYPEBITS, plan.get("w", 2)));
 	size_t maxtype = (size_t)1 << w;
 	bool tap = plan.get("tap", 1) != 0;
@@ -86,7 +90,7 @@ static RunResult qr_execute(const Plan &plan)
 	for (size_t i = 0; i + 1 < idx.size(); i++) { size_t j = i + ks % (idx.size() - i); ks /= (idx.size() - i); std::swap(idx[i], idx[j]); }
 	TMCG_PublicKeyRing ring(k);
 	std::vector<TMCG_SecretKey*> sk;
-	for (size_t i = 0; i < k; i++) { sk.push_back(g_sk[idx[i]]); ring.keys[i] = TMCG_PublicKey(*sk[i]); }
+	for (size_t i = 0; i < k; i++) { sk.push_back(g_sk[idx[i % idx.size()]]); ring.keys[i] = TMCG_PublicKey(*sk[i]); }
 	SchindelhauerTMCG tmcg(4, k, w);
 	struct CardRec { TMCG_Card c; size_t type; size_t masked; };
 	struct StackRec { TMCG_Stack<TMCG_Card> s; std::vector<size_t> types; };
